@@ -587,6 +587,8 @@ class Check:
             print("KNOWN-FINDING: property=%s %s" % (self.prop, what))
         rc = 0
         seen = set()
+        # violations with a concrete failing input first (stable): the cap below must never hide them behind broken ties
+        self.violations.sort(key=lambda v: not v[2])
         for what, replay, has_input in self.violations:
             h = hashlib.sha1(json.dumps(replay, sort_keys=True, default=str).encode()).hexdigest()[:10]
             if h in seen:
